@@ -926,6 +926,26 @@ def wake_protocol(ctx, rule="R07.4"):
                 okp = okp and any(t.callee.is_("core::task::wake::Waker::will_wake") for t in ww)
         ctx.require(okp, rule, "poll-registers-own-waker", "inside the critical section the task's waker is stored unless an equivalent one already is",
                     p.loc(p.line), fail="Flag::poll does not reliably store the polling task's waker")
+    # the answer is the flag: Ready exactly when the last load saw it set, Pending exactly when it saw it unset - on every syntactic path
+    pps = pathx.Enum().paths(thir.root(p))
+    wrong = []
+    for q in pps:
+        loads_ = []
+        for e in q.ev:
+            if e[0] == "branch":
+                d, neg = pathx.split_not(e[1])
+                if "load(self.0.set" in d.replace("^", ""):
+                    loads_.append(bool(e[2]) != neg)
+        val = (q.val or "")
+        if val.startswith("Ready") and not (loads_ and loads_[-1] is True):
+            wrong.append("Ready without having seen the flag set")
+        elif val.startswith("Pending") and not (loads_ and loads_[-1] is False):
+            wrong.append("Pending without having seen the flag unset")
+        elif not val.startswith(("Ready", "Pending")):
+            wrong.append("unmodelled result %s" % val[:40])
+    ctx.require(len(pps) >= 3 and not wrong, rule, "poll-answers-the-flag", "Flag::poll returns Ready only after loading the flag as set and Pending only after loading it as unset (%d paths)" % len(pps),
+                p.loc(p.line), detail=str(sorted(set(wrong))),
+                fail="Flag::poll can answer without consulting the flag (%s): a ticket resolves although its control has not run" % sorted(set(wrong)))
     # polling never unregisters anybody: the list only ever shrinks in raise()
     REMOVERS = ("Vec::retain", "Vec::retain_mut", "Vec::clear", "Vec::truncate", "Vec::remove", "Vec::swap_remove", "Vec::pop", "Vec::drain", "Vec::split_off",
                 "Vec::dedup", "Vec::dedup_by", "Vec::dedup_by_key", "Vec::extract_if", "core::mem::take", "core::mem::replace", "core::mem::swap")
